@@ -238,6 +238,8 @@ class Ref:
         u = lambda k: int(args[k])
         o = op
         pos_suffix = ""
+        if o == "fresh":
+            return "ok"
         if o in ("Rseek", "Wseek"):
             if o[0] == "R":
                 self.rpos = u(0)
@@ -445,7 +447,7 @@ class Ref:
 
 def n_args(op, toks, i):
     """number of argument tokens of op at toks[i]"""
-    fixed = {"lvl": 1, "from": 1, "aae": 1, "al": 3, "de": 3, "tr": 1, "wu8": 2, "wi8": 2, "wu16": 2, "wi16": 2, "wu32": 2, "wi32": 2,
+    fixed = {"fresh": 0, "lvl": 1, "from": 1, "aae": 1, "al": 3, "de": 3, "tr": 1, "wu8": 2, "wi8": 2, "wu16": 2, "wi16": 2, "wu32": 2, "wi32": 2,
              "wf32": 2, "wb": 2, "ru8": 1, "ri8": 1, "ru16": 1, "ri16": 1, "ru32": 1, "ri32": 1, "rf32": 1, "rb": 2, "ws": 2,
              "ws0": 1, "wp": 2, "wp0": 1, "wl": 2, "wc": 2, "rs": 1, "rp": 1, "rl": 1, "rc": 1, "ds": 1, "dp": 1, "dls": 1,
              "dl": 2, "fl": 1, "ser": 0, "Rseek": 1, "Rskip": 1, "Rru8": 0, "Rri8": 0, "Rru16": 0, "Rri16": 0, "Rru32": 0,
@@ -490,6 +492,8 @@ def expected(line):
         if op == "lvl":
             level = int(args[0])
             res = "ok"
+        elif op == "fresh":
+            res = "ok"     # harness only: the next stream operation gets a fresh reader / writer object
         elif op == "ser":
             res = None
             if r.in_domain():
